@@ -136,10 +136,22 @@ def R1_run(c1, c2, quiet_at, end, shape, kindA, cbres, uni, withexit, status):
     def factory(command, **kw):
         ch = Child(script, uni, status)
         holder['c'] = ch
+        holder['kw'] = (command, kw)
         return ch
+    # the caller's timeout convention varies with the first cut: -1 = the spawn class's default, a number, None = never
+    tmo = [-1, 7, None][c1 % 3]
     with patched(RUN, spawn=factory), patched(E, time=Clock(0)), untraced_re():
-        r = RUN.run('prog', withexitstatus=withexit, events=events, encoding='utf-8' if uni else None)
+        r = RUN.run('prog', withexitstatus=withexit, events=events, encoding='utf-8' if uni else None, timeout=tmo,
+                    cwd='/w', env={'K': 'v'})
     ch = holder['c']
+    command, kw = holder['kw']
+    if command != 'prog' or kw.get('cwd') != '/w' or kw.get('env') != {'K': 'v'} or kw.get('encoding') != ('utf-8' if uni else None):
+        return 0                        # the child is not created as asked
+    if tmo == -1:
+        if 'timeout' in kw and kw['timeout'] != 30:
+            return 0
+    elif 'timeout' not in kw or kw['timeout'] != tmo:
+        return 0                        # None means "never time out", not "use the default"
     out, st = (r if withexit else (r, None))
     if withexit:
         if not isinstance(r, tuple) or st != status or ch.closed_n != 1:
